@@ -47,7 +47,7 @@ Record foam_params := mkFoamParams {
   fp_bval_bytes : Z;             (* 1 if SMALL_BVAL_TAGS, else 2 *)
   fp_max_byte : Z;               (* MAX_BYTE *)
   fp_u16_per_digit : Z;          (* sizeof(BIntS)/2: U16sPerUNotAsLong *)
-  t_SInt : Z; t_Unimp : Z; t_Decl : Z; t_GDecl : Z; t_BInt : Z;
+  t_Char : Z; t_SInt : Z; t_Unimp : Z; t_Decl : Z; t_GDecl : Z; t_BInt : Z;
   t_Rec : Z; t_DEnv : Z; t_DFluid : Z;
   t_Lex : Z; t_RElt : Z; t_RRElt : Z; t_EElt : Z; t_IRElt : Z; t_TRElt : Z;
   t_Prog : Z; t_BCall : Z;
